@@ -134,6 +134,15 @@ let enum_map_of (es : ty list) : TyRel.enum_map =
   (* set_enum_uid inserts; a later registration of the same uid overwrites *)
   List.rev (List.filter_map (fun t -> match t with Enum (u, _) -> Some (u, t) | _ -> None) es)
 
+(* model variant: `driver fixes=max,weak,feq` switches on the flags of TyRel.fixes that mirror
+   the fix patches C12-2 (max), C12-1 (weak), C13-2 (feq); no argument = pinned commit *)
+let fx : TyRel.fixes =
+  let on name =
+    Array.exists (fun a ->
+      String.length a > 6 && String.sub a 0 6 = "fixes=" &&
+      List.mem name (String.split_on_char ',' (String.sub a 6 (String.length a - 6)))) Sys.argv in
+  { TyRel.fx_max_distinct = on "max"; TyRel.fx_weak_nominal = on "weak"; TyRel.fx_feq_uid = on "feq" }
+
 let show_outcome = function
   | Util.Ok ExpectMatch.Accept -> "ACCEPT"
   | Util.Ok ExpectMatch.SilentReject -> "SILENT"
@@ -151,23 +160,23 @@ let () =
         let buf = Buffer.create 4096 in
         Buffer.add_char buf (bc (TyRel.might_be_weak a));
         Buffer.add_char buf (bc (TyRel.is_zero_sized a));
-        Buffer.add_char buf (rb (TyRel.created_from_nothing m a));
+        Buffer.add_char buf (rb (TyRel.created_from_nothing fx m a));
         Buffer.add_char buf '|';
-        Buffer.add_char buf (bc (TyLaws.known_weak_fit a));
+        Buffer.add_char buf (bc (TyLaws.known_weak_fit fx a));
         Buffer.add_char buf (bc (TyLaws.value_ty a));
         Buffer.add_char buf (bc (Ty.is_nominal a));
         List.iter (fun btoks ->
           let b = one btoks in
           Buffer.add_char buf ' ';
-          Buffer.add_char buf (bc (TyRel.fit a b));
-          Buffer.add_char buf (bc (TyRel.cast a b));
-          Buffer.add_char buf (bc (TyRel.weak a b));
-          Buffer.add_char buf (bc (TyRel.feq false a b));
-          Buffer.add_char buf (bc (TyRel.feq true a b));
-          Buffer.add_char buf (bc (TyRel.has_semantics_of a b));
-          Buffer.add_char buf (rb (TyRel.differentiate m a b));
+          Buffer.add_char buf (bc (TyRel.fit fx a b));
+          Buffer.add_char buf (bc (TyRel.cast fx a b));
+          Buffer.add_char buf (bc (TyRel.weak fx a b));
+          Buffer.add_char buf (bc (TyRel.feq fx false a b));
+          Buffer.add_char buf (bc (TyRel.feq fx true a b));
+          Buffer.add_char buf (bc (TyRel.has_semantics_of fx a b));
+          Buffer.add_char buf (rb (TyRel.differentiate fx m a b));
           Buffer.add_char buf ':';
-          (match TyRel.tmax m a b with
+          (match TyRel.tmax fx m a b with
            | Util.Ok None -> Buffer.add_string buf "N:--"
            | Util.Crash _ -> Buffer.add_string buf "P:--"
            | Util.OutOfFuel -> Buffer.add_string buf "F:--"
@@ -176,11 +185,11 @@ let () =
              else if ty_eqb c b then Buffer.add_char buf 'B'
              else (Buffer.add_char buf '='; Buffer.add_string buf (String.concat "_" (show c)));
              Buffer.add_char buf ':';
-             Buffer.add_char buf (bc (TyRel.fit a c));
-             Buffer.add_char buf (bc (TyRel.fit b c)));
+             Buffer.add_char buf (bc (TyRel.fit fx a c));
+             Buffer.add_char buf (bc (TyRel.fit fx b c)));
           Buffer.add_char buf '|';
-          Buffer.add_string buf (string_of_int (int_of_n (TyLaws.known_max false a b)));
-          Buffer.add_string buf (string_of_int (int_of_n (TyLaws.ntarget_code (TyLaws.ntarget a b))));
+          Buffer.add_string buf (string_of_int (int_of_n (TyLaws.known_max fx false a b)));
+          Buffer.add_string buf (string_of_int (int_of_n (TyLaws.ntarget_code (TyLaws.ntarget fx a b))));
           Buffer.add_char buf (bc (TyLaws.known_order a b))) bs;
         print_endline (Buffer.contents buf)
       | ("EM" :: es) :: [lit] :: f :: [e] ->
@@ -190,7 +199,7 @@ let () =
           | ["ENUM"] -> ExpectMatch.ExpEnum
           | ["SUM"] -> ExpectMatch.ExpSumType
           | _ -> ExpectMatch.Concrete (one e) in
-        print_endline (match ExpectMatch.expect_match (lit = "1") f e with
+        print_endline (match ExpectMatch.expect_match fx (lit = "1") f e with
           | Util.Ok ExpectMatch.Accept -> "ACCEPT"
           | Util.Ok ExpectMatch.SilentReject -> "SILENT"
           | Util.Ok ExpectMatch.Mismatch -> "MISMATCH"
@@ -198,8 +207,8 @@ let () =
           | Util.OutOfFuel -> "FUEL")
       | ((("EB" | "ER") as kind) :: es) :: f :: [e] ->
         let m = enum_map_of (parse_many es) in
-        print_endline (match (if kind = "EB" then ExpectMatch.expect_block_match m (one f) (one e)
-                              else ExpectMatch.expect_return m (one f) (one e)) with
+        print_endline (match (if kind = "EB" then ExpectMatch.expect_block_match fx m (one f) (one e)
+                              else ExpectMatch.expect_return fx m (one f) (one e)) with
           | Util.Ok ExpectMatch.Accept -> "ACCEPT"
           | Util.Ok ExpectMatch.SilentReject -> "SILENT"
           | Util.Ok ExpectMatch.Mismatch -> "MISMATCH"
@@ -208,8 +217,8 @@ let () =
       | ("BIN" :: es) :: [op] :: a :: [b] ->
         let m = enum_map_of (parse_many es) in
         let op = if op = "add" then ExpectMatch.OpAdd else ExpectMatch.OpEq in
-        print_endline (show_outcome (ExpectMatch.binary_outcome m op (one a) (one b)))
+        print_endline (show_outcome (ExpectMatch.binary_outcome fx m op (one a) (one b)))
       | ("ASSIGN" :: _) :: value :: [dest] ->
-        print_endline (show_outcome (ExpectMatch.assign_outcome (one value) (one dest)))
+        print_endline (show_outcome (ExpectMatch.assign_outcome fx (one value) (one dest)))
       | _ -> print_endline "!BADLINE"
     with Parse s -> print_endline ("!PARSE " ^ s))
